@@ -760,7 +760,15 @@ def vc_call(H):
 
     def body2(ctx):
         func = sym('func')
-        me = sym('self', attrs={'free_symbols': {'s'}, '_callable': (sym('keys_out'), func), 'algebra': sym('algebra'),
+
+        class Sy:
+            def __init__(self, n):
+                self.name = n
+
+            def __repr__(self):
+                return self.name
+        # free symbols named like the keywords (objects with a .name, as sympy symbols / kingdon's own symbol class have)
+        me = sym('self', attrs={'free_symbols': {Sy('c'), Sy('a'), Sy('b')}, '_callable': (sym('keys_out'), func), 'algebra': sym('algebra'),
                                 'fromkeysvalues': sym('fromkeysvalues')})
         vb, va, vc = sym('vb'), sym('va'), sym('vc')
         r = H.closure(Interp(ctx, source_name=MV), fuc, {'sorted': sorted})(me, b=vb, a=va, c=vc)
